@@ -362,6 +362,13 @@ class CHECK(core.Check):
                             % (what, cid, idle, T))
                 if persisted:
                     return "%s: persisted connection %d closed by the idle timer" % (what, cid)
+            # ... and an idle connection IS dropped: one that was in the table before this serviceConnects, has its idle
+            # check on (timeout not switched off by persistence) and moved no byte for at least T, must not survive it
+            if op[0] == "connects" and T > 0:
+                for cid, (to, stop, cutf, p) in prev.items():
+                    if cid in conns and to != "0" and now - last.get(cid, now) >= T:
+                        return ("%s: connection %d moved no byte for %d ticks (timeout %d) and was not dropped"
+                                % (what, cid, now - last[cid], T))
             for cid in prev:
                 if cid not in conns and cid not in [c[0] for c in closed]:
                     return "%s: connection %d vanished without being reported closed" % (what, cid)
